@@ -58,7 +58,7 @@ class C03(HistoryProperty):
         cfg = gen.swarm_cfg(rng, on=("dsclass",))
         spec = gen.prune(gen.gen_spec(rng, cfg))
         ops = gen_history(rng, cfg, spec)
-        return {"cfg": cfg, "spec": spec, "ops": ops}
+        return {"cfg": cfg, "spec": spec, "ops": ops, "inplace": rng.random() < 0.33}
 
     def run_case(self, case):
         if case.get("xproc"):
@@ -76,7 +76,8 @@ class C03(HistoryProperty):
             return out
 
         with global_state_guard():
-            w = World(spec)
+            # (in a third of the histories the caller keeps ONE dictionary object and edits it in place between calls)
+            w = World(spec, inplace=bool(case.get("inplace")))
             strict = False
             table = {}  # node -> list of (keys tuple, restricted canonical text, fingerprint)
             with lrt.handle(KeysRequest, recording_keys_handler):
